@@ -367,18 +367,7 @@ Definition write_slice16 (elems : list (list N)) : res (list N) :=
 (* `writer.write_u32(code_length); writer.write_u8_slice(&w)` *)
 Definition frame_code (code : list N) : list N := be32 (zlen code) ++ code.
 
-(* ======================= stack map frames ======================= *)
-(* write_code pushes (opcode_pos, frame) for every instruction that carries a frame and then
-   writes nothing: `if !frames.is_empty() { // TODO: write stack map table }`.
-   A frame is abstracted to an identifier. *)
-Fixpoint tree_frames (fs : list (option N)) (pos : list Z) : list (Z * N) :=
-  match fs, pos with
-  | Some f :: fs', p :: pos' => (p, f) :: tree_frames fs' pos'
-  | None :: fs', _ :: pos' => tree_frames fs' pos'
-  | _, _ => []
-  end.
-Definition written_frames (fs : list (option N)) (pos : list Z) : list (Z * N) := [].
-Definition has_frames (fs : list (option N)) : bool := existsb (fun o => match o with Some _ => true | None => false end) fs.
+(* stack map frames: C02/Frames.v *)
 
 (* ======================= the BootstrapMethods table (pool.rs put_bootstrap_method) =========== *)
 (* an entry = (handle, argument pool indices), abstracted to a key; index = position in the Vec *)
